@@ -308,20 +308,10 @@ fn run_init(
     // Resolve paths with defaults
     let project_path = project_path.unwrap_or_else(|| PathBuf::from("./src-tauri"));
     let generated_path = generated_path.unwrap_or_else(|| PathBuf::from("./src/generated"));
-    let mut output_path = output_path.unwrap_or_else(|| PathBuf::from("tauri.conf.json"));
+    // Without --output the configuration goes into the tauri.conf.json of the project path; a
+    // file the user pointed at is used as given (also a tauri.conf.json in the current directory)
+    let output_path = output_path.unwrap_or_else(|| project_path.join("tauri.conf.json"));
     let validation_library = validation_library.unwrap_or_else(|| "none".to_string());
-
-    // If output path is just "tauri.conf.json" (default), place it in the project path
-    let has_no_meaningful_parent = output_path
-        .parent()
-        .map(|p| p.as_os_str().is_empty())
-        .unwrap_or(true);
-
-    if output_path.file_name().and_then(|n| n.to_str()) == Some("tauri.conf.json")
-        && has_no_meaningful_parent
-    {
-        output_path = project_path.join("tauri.conf.json");
-    }
 
     let is_tauri_config =
         output_path.file_name().and_then(|n| n.to_str()) == Some("tauri.conf.json");
